@@ -436,5 +436,5 @@ PROPS["C20"] = {
 }
 
 NOT_APPLICABLE = {
-    "C04": "relational equivalence between two pipelines; follows only from global theorems (C01/C02/C09 + C05 kernel) that no contract here decides (DESIGN.md §6 C04)",
+    "C04": "a relational equivalence between two whole pipelines (sharded vs. one pass). Its ingredients are decided here - a k-mer and its reverse complement always land in the same shard (C08), each shard's compression is a lossless partition (C01), re-compression keeps exactly the k-mers of the surviving nodes and folds payloads over them (C09), pruning removes exactly the dangling extensions (C03) - but the conclusion 'the same partition of k-mers into nodes' additionally needs UNIQUENESS of the maximal-unbranched-path decomposition (C02's undecided clause) and the grouping kernel of filter_kmers (C05's undecided clause), and BaseGraph::combine (generic Iterator of graphs, Vec::extend) is outside the Verus subset; no contract within reach expresses the equality of two runs (DESIGN.md §6 C04)",
 }
